@@ -64,6 +64,10 @@ class Integrator(object):
             Integration result as float.
         """
 
+        # The cache is keyed by value: a request in lower precision must not share an entry with the float it compares equal to
+        theta = float(theta)
+        a = float(a)
+
         # Caching
         if (integrand, theta, a) in self._cache:
             return self._cache[(integrand, theta, a)]
